@@ -545,7 +545,8 @@ def run(ctx, rep):
             n_cur += 1
             a = event_args(gg, n)
             f = strip_ids(a[-1])
-            if contains(f, lambda x: call_is(x, r"fs::OpenOptions::open$|fs::File::open$")):
+            if contains_src(gg, a[-1], lambda x: call_is(x, r"fs::OpenOptions::open$|fs::File::open$")) and \
+                    not contains_src(gg, a[-1], lambda x: call_is(x, r"fs::File::try_clone$") or (isinstance(x, tuple) and x and x[0] == "field" and x[2] == "f" and has_field(x, "chunk"))):
                 rep.ok("R07.6", "%s: cursor reader" % short_key(key).split("::")[-1][:30], "over a descriptor opened in the same cone", where=gg.where(n))
             else:
                 rep.violation("R07.6", "%s|cursor-reader-over-shared-file" % short_key(key), "BufReader",
